@@ -439,6 +439,15 @@ def error_variant(b, block, adt_suffixes=("A2lError", "ParserError", "TokenizerE
             nm = mir.strip_generics(t["res"].lstrip("?"))
             if re.search(r"ParserError::[a-z_]+$", nm):
                 return "ParserError::" + nm.split("::")[-1]
+            # a constructor helper the reviewed tree does not know that builds exactly one variant of an error type
+            hb = mir.prog().bodies.get(t["res"])
+            known = sym.known_functions()
+            if hb is not None and known is not None and nm not in known and hb.kind != "Closure" and hb.locals and hb.locals[0]["ty"].split("::")[-1] in adt_suffixes:
+                built = {(x["rv"]["adt"].split("::")[-1], x["rv"]["v"] or "") for _, _, x in hb.stmts()
+                         if x["k"] == "assign" and x["rv"]["r"] == "agg" and x["rv"].get("kind") == "adt" and x["rv"]["adt"].split("::")[-1] in adt_suffixes}
+                if len(built) == 1:
+                    a, v = list(built)[0]
+                    return a + "::" + v
         ps = [p for p in preds[cur] if not b.blocks[p]["cleanup"]]
         if len(ps) != 1:
             break
@@ -584,6 +593,19 @@ def reach_formula(b, S, block, stack=(), depth=0):
                     rc = reach_formula(b, S, sb, stack + (block,), depth + 1)
                     terms.append(_and(rc, lab))
                     continue
+        if t.get("dty") == "bool" and d is not None and not d["p"] and depth < 12:
+            # a test delegated to a predicate function the reviewed tree does not know (a long condition extracted into a
+            # helper): the helper's own return condition, with its parameters replaced by the operands of the call
+            hf = helper_formula(b, S, resolve_copy(b, d["l"]))
+            if hf is not None:
+                vals = [v for v, bb in t["ts"] if bb == taken]
+                is_other = taken == t["o"] and not vals
+                truth = (not is_other and vals == ["1"]) or (is_other and [v for v, _ in t["ts"]] == ["0"])
+                lab = hf if truth else neg(hf)
+                loops = _loops(b)
+                rc = True if (sb in loops and block in loops[sb]) else reach_formula(b, S, sb, stack + (block,), depth + 1)
+                terms.append(_and(rc, lab))
+                continue
         if d is not None and not d["p"] and t.get("dty") != "bool" and depth < 12:
             srcl = discr_source(b, sb, d)
             sd = selector_defs(b, resolve_copy(b, srcl)) if srcl is not None else None
@@ -610,6 +632,61 @@ def reach_formula(b, S, block, stack=(), depth=0):
     if any(t is True for t in terms):
         return True
     return terms[0] if len(terms) == 1 else ["or"] + terms
+
+
+_hf_cache = {}
+_hfA = None
+
+
+def helper_formula(b, S, l):
+    """formula of the bool local l when it is the result of a call to a bool function of the repository that is not in
+    oracle/known_functions.json; None otherwise (or when the helper's value is not a plain condition over its parameters)"""
+    global _hfA
+    call = None
+    n = 0
+    for blk in b.blocks:
+        for s_ in blk["s"]:
+            if s_["k"] == "assign" and not s_["p"]["p"] and s_["p"]["l"] == l:
+                n += 1
+        t = blk["t"]
+        if t["k"] == "call" and t.get("dest") and not t["dest"]["p"] and t["dest"]["l"] == l:
+            call = t
+            n += 1
+    if call is None or n != 1:
+        return None
+    prog = mir.prog()
+    res = call.get("res") or ""
+    hb = prog.bodies.get(res)
+    known = sym.known_functions()
+    if hb is None or known is None or hb.kind == "Closure" or mir.strip_generics(res) in known or hb.file == "a2lfile/src/specification.rs":
+        return None
+    if not hb.locals or hb.locals[0]["ty"] != "bool" or len(hb.blocks) > 40:
+        return None
+    if res not in _hf_cache:
+        if _hfA is None:
+            _hfA = sym.Analyzer(prog, opaque=[r".*"])
+        try:
+            Sh = _hfA.summary(res)
+            _hf_cache[res] = value_formula(hb, Sh, 0) if Sh is not None else None
+        except RecursionError:
+            _hf_cache[res] = None
+    F = _hf_cache[res]
+    if F is None or F is True or F is False:
+        return None
+    args = [op_desc(b, S, a) for a in call["args"]]
+
+    def sub(txt):
+        return re.sub(r"\barg(\d+)\b", lambda m: args[int(m.group(1)) - 1] if 0 < int(m.group(1)) <= len(args) else m.group(0), txt)
+
+    def rec(f):
+        if f is True or f is False:
+            return f
+        if f[0] in ("and", "or"):
+            return [f[0]] + [rec(x) for x in f[1:]]
+        if f[0] == "e":
+            return ["e", sub(f[1]), [sub(v) for v in f[2]], f[3]]
+        return ["b", sub(f[1]), f[2]]
+    return rec(F)
 
 
 def _subjects(f, acc):
